@@ -47,6 +47,16 @@ func c06Gen(seed uint64, run int, tier string) *Case {
 		c.Stratum = "ufs/directed-" + []string{"", "many-users", "directory-changes-under-a-fid"}[c.Cfg["directed"]]
 		return c
 	}
+	if run%40 == 3 {
+		// a directed session on the scripted implementation: three requests under one tag, the oldest parked in the
+		// implementation, a Tflush of the tag, and the peer hangs up before the parked one comes back
+		c.Cfg["ufs"], c.Cfg["gen"], c.Cfg["directed"], c.Cfg["osrate"] = 0, 3, 3, 0
+		c.Cfg["msize"], c.Cfg["smsize"], c.Cfg["wait"] = 8192, 8192, 1
+		c.Cfg["chain"] = int64(r.Pick(1, 2, 3))
+		c.Cfg["flushfirst"] = int64(r.Intn(2))
+		c.Stratum = "script/directed-tag-chain-cancelled-then-hangup"
+		return c
+	}
 	if run%2 == 1 && run/6%2 == 1 {
 		// the file system misbehaves too: os / syscall calls of Ufs fail at random
 		c.Cfg["osrate"] = int64(r.Pick(20, 60, 200))
@@ -173,6 +183,7 @@ func c06Exec(x *Ctx) {
 	var newConn func() *SConn
 	var fs *ScriptFS
 	var u *UfsSys
+	heldOnce := false
 	var m0 runtime.MemStats
 	runtime.ReadMemStats(&m0)
 	if useUfs {
@@ -201,6 +212,9 @@ func c06Exec(x *Ctx) {
 			}
 			if inv.Op == "walk" && rt.Choose(3) == 0 && len(inv.Req.Tc.Wname) > 0 {
 				p.NWqid = rt.Choose(len(inv.Req.Tc.Wname))
+			}
+			if c.cfg("directed") == 3 && inv.Tag == 77 && len(fs.HeldInvs()) == 0 && !heldOnce {
+				p.Mode, p.Err, heldOnce = PHold, false, true
 			}
 			return p
 		}
@@ -352,6 +366,27 @@ func c06Exec(x *Ctx) {
 				ask(&Msg{Type: Tread, Tag: 11, Fid: 10, Offset: xoff, Count: 4000})
 				ask(&Msg{Type: Tread, Tag: 12, Fid: 10, Offset: 0, Count: 4000})
 				x.Probe("directory-changed-under-a-listing-fid")
+			case 3:
+				p.WriteRaw(Encode(&Msg{Type: Tstat, Tag: 77, Fid: 0}, p.Dotu))
+				for y := 0; y < 200 && len(fs.HeldInvs()) == 0 && !p.EOF; y++ {
+					rt.Yield(rt.SiteActor)
+				}
+				chain := []*Msg{{Type: Tattach, Tag: 77, Fid: 9, Afid: NOFID, Uname: "u1", Nuname: 1}, {Type: Tstat, Tag: 77, Fid: 0}, {Type: Twalk, Tag: 77, Fid: 0, Newfid: 11, Wname: []string{"a"}}}
+				for _, m := range chain[:int(c.cfg("chain"))] {
+					p.WriteRaw(Encode(m, p.Dotu))
+				}
+				ask(&Msg{Type: Tflush, Tag: 78, Oldtag: 77})
+				if c.cfg("flushfirst") != 0 {
+					ask(&Msg{Type: Tflush, Tag: 79, Oldtag: 77})
+				}
+				hostile.Clnt.Close()
+				for y := r.Intn(30); y > 0; y-- {
+					rt.Yield(rt.SiteActor)
+				}
+				for _, h := range fs.HeldInvs() {
+					h.Released = true
+				}
+				x.Probe("tag-chain-cancelled-then-hangup")
 			}
 		}
 		for i := 0; i < n && !p.EOF; i++ {
